@@ -1,4 +1,5 @@
 import EaselModel.Getopts.Outcomes
+import EaselModel.Getopts.Indices
 import EaselModel.Getopts.Abbrev
 import EaselModel.Getopts.Ranges
 import EaselModel.Getopts.RealOrder
@@ -13,7 +14,7 @@ the differential run of `harness/h_getopts.c`).  Proofs here are glue on the nam
 Full statement (properties.jsonl) and where each clause is proved, for every well-formed option table (`WF`)
 and every sequence of sources:
 * (a) value = last source that set it, default otherwise; second setting by the same source is a usage error:
-  `sources_are_setting_sequences_*`, `spoof_is_cmdline_of_its_words`, `cfg_line_*`, `cfgfile_is_its_settings`, `long_option_*_form`, `long_flag_form`, `short_option_*_form`, `concatenated_short_flags`, `successful_*_is_history`, `cmdline_success_is_history`, `cfgfile_success_is_history`, `environment_success_is_history`, `last_setter_wins`, `untouched_keeps_state`, `fresh_object_all_default`, `reuse_restores_defaults`,
+  `sources_are_setting_sequences_*`, `spoof_is_cmdline_of_its_words`, `cfg_line_*`, `cfgfile_is_its_settings`, `long_option_*_form`, `long_flag_form`, `short_option_*_form`, `concatenated_short_flags`, `successful_*_is_history`, `cmdline_success_is_history`, `cfgfile_success_is_history`, `environment_success_is_history`, `parsed_settings_are_in_table`, `cmdline_last_setter_wins`, `cmdline_untouched_keeps_state`, `last_setter_wins`, `untouched_keeps_state`, `fresh_object_all_default`, `reuse_restores_defaults`,
   `same_source_twice_is_usage_error`, `set_after_toggle_by_same_source_is_usage_error`
 * (b) toggles: `set_option_spec`, `toggle_switches_others_off`, `optlist_element_denotes_named_option`, `optlist_reads_back_names`
 * (c) abbreviations: `abbrev_full_name_resolves`, `abbrev_resolves_iff_unique`, `abbrev_ambiguous_iff`, `abbrev_unknown_iff`
@@ -133,6 +134,44 @@ theorem environment_success_is_history (g g' : G) (env : Str → Option Str) (m 
     runSets g (envEvents env 0 g.opts) = some g' := by
   rw [processEnvironment_eq] at h
   exact runEvs_ok_runSets _ g g' m h
+
+/-- the settings parsed from any source refer to options of the table: the index hypothesis of the history theorems
+    below is discharged for real sources -/
+theorem parsed_settings_are_in_table (opts : List Opt) :
+    (∀ (ws : List Str) (k : Nat), ∀ e ∈ cmdEvs (parseCmd opts k ws false), e.i < opts.length) ∧
+    (∀ (src : Nat) (lines : List Str), ∀ e ∈ cfgEvs src (lines.filterMap (cfgItem opts)), e.i < opts.length) ∧
+    (∀ (env : Str → Option Str), ∀ e ∈ envEvents env 0 opts, e.i < opts.length) :=
+  ⟨fun ws k => cmdline_events_in_table opts ws k, fun src lines => cfgfile_events_in_table opts src lines,
+   fun env => env_events_in_table env opts⟩
+
+/-- (a) for a real command line, with no side hypotheses left: if it is processed successfully and `e` is the last of its
+    settings that touches option `e.i`, then afterwards that option holds `e`'s value and names the command line as setter -/
+theorem cmdline_last_setter_wins (g g' : G) (argv : List Str) (m : Bool) (hinv : Inv g)
+    (h : processCmdline g argv = .done g' .ok m) (pre post : List Ev) (e : Ev)
+    (hsplit : cmdEvs (parseCmd g.opts 1 (argv.drop 1) false) = pre ++ e :: post)
+    (hlast : ∀ e' ∈ post, touches g.opts e' e.i = false) :
+    g'.valOf e.i = newVal (g.opt e.i) e.arg ∧ g'.setter e.i = e.src := by
+  obtain ⟨g0, h1, hv, hs, _⟩ := cmdline_success_is_history g g' argv m h
+  have hin := cmdline_events_in_table g.opts (argv.drop 1) 1
+  rw [hsplit] at h1 hin
+  have := runSets_last_set pre post e { g with argv := argv, optind := 1 } g0 ⟨hinv.hv, hinv.hs⟩ hin h1 hlast
+  have e1 : g'.valOf e.i = g0.valOf e.i := by simp [G.valOf, hv]
+  have e2 : g'.setter e.i = g0.setter e.i := by simp [G.setter, hs]
+  rw [e1, e2]
+  exact this
+
+/-- … and an option that none of its settings touches keeps the value and setter it had before the command line -/
+theorem cmdline_untouched_keeps_state (g g' : G) (argv : List Str) (m : Bool) (hinv : Inv g)
+    (h : processCmdline g argv = .done g' .ok m) (j : Nat)
+    (ht : ∀ e ∈ cmdEvs (parseCmd g.opts 1 (argv.drop 1) false), touches g.opts e j = false) :
+    g'.valOf j = g.valOf j ∧ g'.setter j = g.setter j := by
+  obtain ⟨g0, h1, hv, hs, _⟩ := cmdline_success_is_history g g' argv m h
+  have hin := cmdline_events_in_table g.opts (argv.drop 1) 1
+  obtain ⟨a, b, _, _⟩ := runSets_untouched _ { g with argv := argv, optind := 1 } g0 j ⟨hinv.hv, hinv.hs⟩ hin h1 ht
+  have e1 : g'.valOf j = g0.valOf j := by simp [G.valOf, hv]
+  have e2 : g'.setter j = g0.setter j := by simp [G.setter, hs]
+  rw [e1, e2]
+  exact ⟨a, b⟩
 
 theorem last_setter_wins (pre post : List Ev) (e : Ev) (g g' : G) (hinv : Inv g)
     (hi : ∀ e' ∈ pre ++ e :: post, e'.i < g.opts.length)
